@@ -21,6 +21,7 @@ observed (writev calls, deallocate calls, check_and_get_file_descriptor calls).
   app close                      close(): reserve + publish of the marker -> ok
   app round N1 N2 fd …           one keep_writing iteration               -> `exited=b flushes=k | f=F fd=D calls=a,b iov=p:len,… freed=p,… | …`
   app end                                                                 -> `exited=b queue=n processed=n freed=n`
+  app reopen                     initialize() again after close()         -> ok   (state `App.session`: destinations kept)
 A step the model does not enable prints `REJECT`.
 -/
 open Babylon.Core Babylon.Log
@@ -98,6 +99,9 @@ def appStep (st : St) (ws : List String) : St × String :=
               String.join (fl.map (fun x => " | " ++ showFlush x)))
         | none => (st, "REJECT")
       | _, _, _ => (st, "bad-op")
+    | ["reopen"] =>
+      -- the next initialize() of the same appender: `_destinations` survive close()
+      ({ st with app := some (App.session (a.batch) (a.dests.map (·.file))) |>.map (fun n => { n with batch := a.batch }) }, "ok")
     | ["end"] =>
       (st, s!"exited={if a.exited then 1 else 0} queue={a.queue.length} processed={a.processed.length} freed={a.freed.length}")
     | _ => (st, "bad-op")
